@@ -47,7 +47,10 @@ try:
     os.remove(dst)
     rc, out = go("test", "-vet=off", "-count=1", "-timeout", "25m", "./...", timeout=1800)
     failed = set(re.findall(r"^--- FAIL: (\S+)", out, re.M))
-    good = step("existing suite with the patch: only the two old failures", failed <= OLD_FAIL and "panic:" not in out and "[build failed]" not in out, f"failed={sorted(failed)}\n" + out[-800:]) and good
+    failed_pkgs = set(re.findall(r"^FAIL\s+(\S+)\s", out, re.M))
+    good = step("existing suite with the patch: only the two old failures (both in package redis; TestReaderReset panics there at the baseline too)",
+                failed <= OLD_FAIL and failed_pkgs <= {"github.com/diiyw/nodis/redis"} and "[build failed]" not in out,
+                f"failed={sorted(failed)} packages={sorted(failed_pkgs)}\n" + out[-800:]) and good
     res["confirmed"] = bool(good)
     print("CONFIRMED" if good else "NOT CONFIRMED", d)
 finally:
